@@ -69,6 +69,25 @@ theorem dec_lag_zero_world (p : Params) (pol : Policy) (tun : Tuning) (calls : L
   unfold Iov.totalSize
   omega
 
+/-- C09's prefix clause on the structural iovec, all input methods: between the calls of any run, the
+bytes drained so far followed by the bytes of `stable_prefix()` — the first `n` slices, `n` the value
+`Iov.stableCount` computes (the function the correspondence driver prints through; it does not underflow) —
+are a prefix of the FINAL output, `Spec.encode` of the whole input, whatever calls `c2` follow.  (On the
+iovec the stable prefix ends at a slice boundary, so it can be shorter than the abstract pipe's stable
+bytes of `Props/C09.drain_prefix`; it is never longer.) -/
+theorem enc_drained_stable_prefix (p : Params) (hp : p.Valid) (pol : Policy) (tun : Tuning) (c1 c2 : List ACall) :
+    ∃ r v n, encPrefixA p pol tun c1 = some r ∧ r.w.iov 0 = some v ∧ v.stableCount = some n ∧
+      r.drained ++ r.w.flat (v.slices.take n) <+: Spec.encode p (ainputOf (c1 ++ c2)) := by
+  obtain ⟨r, v, h1, h2, h3, h4⟩ := enc_prefix_struct p hp pol tun c1 c2
+  exact ⟨r, v, v.stableN, h1, h2, h3.stableCount, h4⟩
+
+/-- … and at the end nothing is lost: `Props/C01G.enc_world_output` (drained ++ flattened = the output). -/
+theorem enc_drained_complete (p : Params) (hp : p.Valid) (pol : Policy) (tun : Tuning) (calls : List ACall) :
+    ∃ w' dr v', encRunA p pol tun calls = some (w', dr) ∧ w'.iov 0 = some v' ∧
+      dr ++ w'.flat v'.slices = Spec.encode p (ainputOf calls) := by
+  obtain ⟨w', v', dr, _, k1, k2, _, _, _, _, _, k8, _⟩ := encRunA_sim p hp pol tun calls
+  exact ⟨w', dr, v', k1, k2, k8⟩
+
 /-! ### Non-vacuity (test parameters ⟨3, 5⟩) -/
 
 /-- (lag, (offset, length) of the slices, begin of the pending header in its slice, brLen, cur) between calls -/
